@@ -506,7 +506,7 @@ class Thr:
         return hash(self.tag)
 
 
-class _Frame:
+class _Frame(_Strict):
     def __init__(self, rows):
         self.rows = rows
 
@@ -514,13 +514,12 @@ class _Frame:
         return self
 
 
-class _ConfPD:
-    @staticmethod
-    def DataFrame(rows):
+class _ConfPD(_Strict):
+    def DataFrame(self, rows, *a, **k):
         return _Frame(list(rows))
 
 
-class _Col:
+class _Col(_Strict):
     def __init__(self, vals):
         self.vals = vals
 
@@ -542,7 +541,7 @@ def _expected_boundary_count(row):
     return n
 
 
-class _Model:
+class _Model(_Strict):
     """Arbitrary model: the output for a row is the world's confidence of that reaction as long as the features
     computed by the real feature code are the row's own (num_boundary, bond/ring change); a row that reaches the
     model with foreign feature values gets a different output (a model may depend on any feature)."""
@@ -573,9 +572,8 @@ class _FeatChem:
         return _FeatMol() if ok else None
 
 
-class _ConfNP:
-    @staticmethod
-    def round(xs, nd):
+class _ConfNP(_Strict):
+    def round(self, xs, nd=0):
         return xs
 
 
@@ -690,8 +688,8 @@ def install(coarse_mcs=True):
     m = mods["synrbl.confidence_prediction"]
     for n in ("pd", "np", "count_boundary_atoms_products_and_calculate_changes", "calculate_chemical_properties"):
         _need(m, n)
-    m.pd = _ConfPD
-    m.np = _ConfNP
+    m.pd = _ConfPD()
+    m.np = _ConfNP()
     # count_boundary_atoms_products_and_calculate_changes stays real (its RDKit calls are stubbed: no bonds, no rings)
     import synrbl.SynAnalysis.analysis_utils as _au
 
